@@ -106,6 +106,20 @@ def check_get_lindblad_operators(rnd, trials, only=None):
             continue
         nm = random_model(rnd, dim, nt, rnd.randint(1, 2))
         got = get_lindblad_operators(noise_type=nt, noise_model=nm, interact_type=it, dim=dim)
+        # the result is a function of the arguments: a second construction from the same model (as in a second
+        # run or a parameter sweep), and one for the other interaction type in between, must give the same
+        if t % 3 == 0:
+            other = "XY" if it == "ising" else "ising"
+            if not (nt == "relaxation" and other == "XY"):
+                try:
+                    get_lindblad_operators(noise_type=nt, noise_model=nm, interact_type=other, dim=dim)
+                except Exception:
+                    pass
+            again = get_lindblad_operators(noise_type=nt, noise_model=nm, interact_type=it, dim=dim)
+            if len(again) != len(got) or any(not torch.equal(torch.as_tensor(a), torch.as_tensor(b)) for a, b in zip(again, got)):
+                print(f"REPRODUCED: get_lindblad_operators({nt}, {it}, dim={dim}) called again with the same noise model "
+                      f"returns different operators:\nfirst call: {list(got)}\nlater call: {list(again)}")
+                return 1
         want_all = [to_emulator(m, it) for m in pulser_collapse_ops(nm, it, dim)]
         if nt == "eff_noise":
             want = want_all[-len(nm.eff_noise_opers):]
